@@ -2086,10 +2086,23 @@ def known_static_exceptions():
     return sorted(writers), sorted(returners)
 
 
-def generate_exceptions(path=None):
+def generate_exceptions(path=None, res=None):
     writers, returners = known_static_exceptions()
     accessors = sorted(k for k, v in SP.SPECS.items() if v.get('cache_accessor'))
-    unproved = sorted(SP.ALIAS_UNPROVED_ARGS)
+    unproved = []
+    for k in sorted(SP.ALIAS_UNPROVED_ARGS):
+        names = SP.ALIAS_UNPROVED_ARGS[k][0]
+        prog = None
+        if res is not None:
+            prog = res['progs'].get(k) or res['progs'].get(k + '.__init__')
+        params = [q.rsplit('#', 1)[0] for q in prog[0]] if prog else []
+        pos = [params.index(nm) for nm in names if nm in params]      # a missing name is simply not exempt
+        if prog:
+            # exempt only what the checker still rejects (an exemption that is no longer needed disappears)
+            pts_, T_, W_, R_ = analyze(prog[0], prog[1], res['summaries'])
+            pos = [i for i in pos if ('A', i) in W_]
+        if pos:
+            unproved.append((k, pos))
 
     def lst(name, items, comment):
         return '(* %s *)\nDefinition %s : list string := [%s].\n' % (comment, name, '; '.join(coq_str(x) for x in items))
@@ -2099,10 +2112,14 @@ def generate_exceptions(path=None):
             'From Coq Require Import List String.\nImport ListNotations.\nOpen Scope string_scope.\n\n'
             + lst('known_arg_writers', writers, 'recorded findings: the callable writes into an argument (safe_args is refuted)')
             + lst('known_cache_returners', returners, 'recorded findings: a returned array is held by a module-level cache (safe_ret is refuted)')
-            + lst('unproved_args', unproved, 'safe_args is not established (analysis too coarse: see _alias_specs.py); covered dynamically')
+            + '(* argument positions for which safe_args is not established (analysis too coarse: see\n'
+              '   ALIAS_UNPROVED_ARGS in _alias_specs.py); covered dynamically *)\n'
+              'Definition unproved_args : list (string * list nat) := [%s].\n'
+              % '; '.join('(%s, [%s])' % (coq_str(k), '; '.join(str(i) for i in pos)) for k, pos in unproved)
             + lst('cache_accessors', accessors, 'documented cache accessors: returning the cached arrays is their purpose'))
     vlib.write_if_changed(path or os.path.join(vlib.COQ, 'gen', 'AliasExceptions.v'), text)
-    return dict(writers=writers, returners=returners, unproved=unproved, accessors=accessors)
+    return dict(writers=writers, returners=returners, unproved=[k for k, _ in unproved],
+                unproved_positions=dict(unproved), accessors=accessors)
 
 
 _generate_progs = generate
@@ -2110,7 +2127,7 @@ _generate_progs = generate
 
 def generate(repo=None):           # entry point used by tools/gen_all.py
     res = _generate_progs(repo)
-    res['exceptions'] = generate_exceptions()
+    res['exceptions'] = generate_exceptions(res=res)
     return res
 
 
